@@ -50,8 +50,10 @@ from happysimulator.distributions.constant import ConstantLatency  # noqa: E402
 PID = "C17"
 LEVEL = "exploration"
 RULE = (
-    "Generated cases = (scheme parameters, per-replica store latencies, client op list with repeated keys and unique "
-    "values at generated instants, JSON delay script for every directed link: uniform / bimodal / per-link asymmetric / "
+    "Generated cases = (scheme parameters, per-replica store latencies, client op list with repeated keys at generated instants, "
+    "values either one text per write or (45 %) drawn from a 1-3 letter alphabet with A-B-A / A-A-B bursts on the hot key "
+    "inside one store write latency - every written value is a TV (str subclass equal by text, carrying the index of its "
+    "write) so the monitor identifies the write a store holds by identity, not by text, JSON delay script for every directed link: uniform / bimodal / per-link asymmetric / "
     "targeted per-message rules / fixed (FIFO control group), optionally quantised to a grid so that same-instant ties "
     "occur; no loss). The real PrimaryNode/BackupNode, ChainNode (build_chain), LeaderNode and ReplicatedStore run under "
     "the engine; after every delivered event the monitor samples every replica's public store and polls the reply "
@@ -73,7 +75,13 @@ ASSUMPTIONS = [
     "multi-leader 'anti-entropy has run' is measured by timer firings (AntiEntropy ticks and the peer drawn for each, "
     "recorded by a transparent wrapper around random.choice; 20*(n-1) firings per leader if the draw is not observable), "
     "not by messages exchanged",
-    "primary/head sequence order is read off the primary's/head's own public store history (values are unique)",
+    "primary/head sequence order is read off the primary's/head's own public store history; stored objects are told apart "
+    "by the write index carried by TV (the library passes values by reference and never copies them); 'applied' in the ack "
+    "oracles means by identity (this write's object or that of a later write), 'same value' in the convergence oracle and "
+    "'value held by the tail' in the chain read oracle mean by text",
+    "a LeaderNode's anti-entropy timer re-arms one interval after each firing: a leader that has not fired for two "
+    "intervals (or a run whose heap ran empty before the horizon) has no timer any more; its pairs count as settled and a "
+    "remaining divergence is reported with shape anti-entropy-timer-stopped",
     "chain reads are sent to the tail, or to any node only when CRAQ is enabled (reading a non-tail node of a plain chain is outside the protocol)",
     "multi-leader conflict resolvers supplied by the harness are deterministic total orders consistent with causality "
     "(LastWriterWins, VectorClockMerge with LWW fallback or with a merge function that returns the LWW winner under the "
@@ -227,11 +235,58 @@ def gen_ops(rng, tier, n_nodes, keys, write_nodes, read_nodes, grid, p_write=0.6
             ops.append({"t": t, "op": "r", "node": rng.choice(read_nodes), "key": key})
     if not any(o["op"] == "w" for o in ops):
         ops[0] = {"t": ops[0]["t"], "op": "w", "node": write_nodes[0], "key": hot, "val": "v0"}
+    # Repeated values (about 45 % of the cases): a small alphabet instead of one text per write, and A-B-A bursts on the
+    # hot key whose writes follow each other within a store write latency.  The monitor tells writes apart by the
+    # identity carried by TV, not by the text.
+    if rng.random() < 0.45:
+        letters = rng.choice([["A", "B"], ["A", "B"], ["A", "B", "C"], ["A"]])
+        for o in ops:
+            if o["op"] == "w":
+                o["val"] = rng.choice(letters)
+        for _ in range(rng.choice([0, 1, 1, 2])):
+            if len(ops) < 3:
+                break
+            i = rng.randrange(0, len(ops) - 2)
+            t = ops[i]["t"]
+            x, y = rng.sample(["A", "B", "C"], 2)
+            pattern = rng.choice([[x, y, x], [x, y, x], [x, x, y], [x, y, y]])
+            node = rng.choice(write_nodes)
+            for d, letter in enumerate(pattern):
+                t = round(t + (0.0 if d == 0 else rng.choice([0.0, 0.0003, 0.001, 0.003, 0.008])), 6)
+                same_node = rng.random() < 0.7
+                ops[i + d] = {"t": t, "op": "w", "node": node if same_node else rng.choice(write_nodes), "key": hot, "val": letter}
     return ops
 
 
 def _keys(rng):
     return [f"k{i}" for i in range(rng.choice([1, 1, 2, 3]))]
+
+
+# --------------------------------------------------------------------------
+# values: equal by content, distinguishable by write
+
+
+class TV(str):
+    """A written value.  Compares / hashes like its text (so that 'the same value written twice' really is the same
+    value for the library), but carries the index of the client write that issued it, so that the monitor can tell
+    *which write* a store holds.  The library only passes values around by reference."""
+
+    def __new__(cls, text: str, wid: int):
+        o = super().__new__(cls, text)
+        o.wid = wid
+        return o
+
+
+def _tok(v):
+    """Identity token of a stored value: 'A#3' = text A issued by client write 3."""
+    if v is None:
+        return None
+    w = getattr(v, "wid", None)
+    return f"{str(v)}#{w}" if w is not None else v
+
+
+def _plain(v):
+    return None if v is None else str(v)
 
 
 # --------------------------------------------------------------------------
@@ -250,7 +305,10 @@ class Mon:
         self.watch = watch_types
         self.idx = 0
         self.now_ns = 0
-        self.cur = [[None] * len(keys) for _ in stores]
+        self.cur = [[None] * len(keys) for _ in stores]  # identity tokens ('A#3'): which write the store holds
+        self.raw = [[None] * len(keys) for _ in stores]  # the stored objects themselves
+        self.curval = [[None] * len(keys) for _ in stores]  # plain text of the value (for "same value" comparisons)
+        self.heldval = [[{None} for _ in keys] for _ in stores]
         # per store, per key: [(event index, t_ns, value)]
         self.hist = [[[(0, 0, None)] for _ in keys] for _ in stores]
         self.held = [[{None} for _ in keys] for _ in stores]
@@ -266,13 +324,17 @@ class Mon:
         changed = False
         for i, st in enumerate(self.stores):
             g = st.get_sync
-            row = self.cur[i]
+            row = self.raw[i]
             for j, k in enumerate(self.keys):
                 v = g(k)
-                if v != row[j]:
+                if v is not row[j] and (v != row[j] or _tok(v) != _tok(row[j])):
                     row[j] = v
-                    self.hist[i][j].append((self.idx, self.now_ns, v))
-                    self.held[i][j].add(v)
+                    t = _tok(v)
+                    self.cur[i][j] = t
+                    self.curval[i][j] = _plain(v)
+                    self.hist[i][j].append((self.idx, self.now_ns, t))
+                    self.held[i][j].add(t)
+                    self.heldval[i][j].add(_plain(v))
                     changed = True
         self.n_samples += 1
         if changed:
@@ -340,8 +402,10 @@ def _schedule_ops(sim, mon: Mon, ops: list[dict], nodes: list):
     for i, o in enumerate(ops):
         fut = SimFuture()
         meta = {"key": o["key"], "reply_future": fut}
+        tok = None
         if o["op"] == "w":
-            meta["value"] = o["val"]
+            meta["value"] = TV(o["val"], i)
+            tok = _tok(meta["value"])
         ev = Event(
             time=Instant.from_seconds(o["t"]),
             event_type="Write" if o["op"] == "w" else "Read",
@@ -349,7 +413,7 @@ def _schedule_ops(sim, mon: Mon, ops: list[dict], nodes: list):
             context={"metadata": meta},
         )
         sim.schedule(ev)
-        mon.pending.append({"i": i, "o": o, "fut": fut})
+        mon.pending.append({"i": i, "o": o, "fut": fut, "tok": tok})
 
 
 def _run_sim(sim, res: Result, total_cap=200000) -> str:
@@ -380,7 +444,7 @@ def _reorder_shape(mon: Mon, node: int, etype: str, key: str, upto_idx: int | No
     whose store write has completed.  Anything else under reordering is a different mechanism and gets its own key.
     """
     j = mon.kidx[key]
-    applied = [a[4].get("value") for a in _arrivals_for(mon, node, etype, key, upto_idx) if a[4].get("value") in mon.held[node][j]]
+    applied = [_tok(a[4].get("value")) for a in _arrivals_for(mon, node, etype, key, upto_idx) if _tok(a[4].get("value")) in mon.held[node][j]]
     if applied and mon.cur[node][j] == applied[-1]:
         return "same-key-replication-messages-reordered"
     return "same-key-replication-messages-reordered-not-arrival-order-apply"
@@ -465,7 +529,7 @@ def run_pb(case: dict) -> Result:
             res.count("writes_rejected")
             return
         res.count("writes_acked")
-        key, val = o["key"], o["val"]
+        key, val = o["key"], op["tok"]
         pos = mon.pos(0, key)
         if val not in pos:
             once.add("ack-implies-applied", "PrimaryNode", "not-applied-at-primary", f"write {val} acked, primary store never held it")
@@ -510,15 +574,15 @@ def run_pb(case: dict) -> Result:
     res.count("quiescence_checks")
     res.count("unacked_at_quiescence", len(mon.pending))
     for j, k in enumerate(keys):
-        ref = mon.cur[0][j]
+        ref = mon.curval[0][j]
         for b in range(1, nb + 1):
-            if mon.cur[b][j] != ref:
+            if mon.curval[b][j] != ref:
                 shape = _reorder_shape(mon, b, "Replicate", k) if _inverted(seqs_at(b, k)) else "in-order-delivery"
                 once.add(
                     "divergence-at-quiescence",
                     "BackupNode",
                     shape,
-                    f"{mode}: heap empty, primary holds {k}={ref!r}, backup {names[b]} holds {mon.cur[b][j]!r}",
+                    f"{mode}: heap empty, primary holds {k}={mon.cur[0][j]!r}, backup {names[b]} holds {mon.cur[b][j]!r}",
                     {"replicate_seq_arrival_order_at_backup": seqs_at(b, k), "backup_history": mon.hist[b][j]},
                 )
     return res
@@ -593,7 +657,7 @@ def run_chain(case: dict) -> Result:
         o = op["o"]
         key, nd = o["key"], o["node"]
         j = mon.kidx[key]
-        val = op["reply"].get("value")
+        val = _tok(op["reply"].get("value"))
         fut = op["fut"]
         served_by_tail = nd == tail or any(
             a[2] == tail and a[3] == "Read" and a[4].get("reply_future") is fut for a in mon.arrivals
@@ -625,13 +689,14 @@ def run_chain(case: dict) -> Result:
                 return
             res.count("chain_reads_checked")
             val = rep.get("value")
-            if val not in mon.held[tail][j]:
+            # the statement speaks of values: the text must have been in the tail's store by now (whichever write put it)
+            if _plain(val) not in mon.heldval[tail][j]:
                 shape = read_shape(op)
                 once.add(
                     "read-returns-value-not-yet-at-tail",
                     "ChainNode",
                     shape,
-                    f"read of {key} at {names[o['node']]} (craq={craq}) returned {val!r} at t={mon.now_ns}ns; the tail's store "
+                    f"read of {key} at {names[o['node']]} (craq={craq}) returned {_tok(val)!r} at t={mon.now_ns}ns; the tail's store "
                     f"has held only {[v for _i, _t, v in mon.hist[tail][j]]}",
                     {"node_history": mon.hist[o["node"]][j], "tail_history": mon.hist[tail][j], "reply_event_index": mon.idx},
                 )
@@ -648,7 +713,7 @@ def run_chain(case: dict) -> Result:
         res.count("writes_acked")
         res.count("acks_checked")
         res.count("chain_acks_checked")
-        val = o["val"]
+        val = op["tok"]
         pos = mon.pos(0, key)
         if val not in pos:
             once.add("ack-implies-applied-at-every-node", "ChainNode", "not-applied-at-head", f"write {val} acked, head never held it")
@@ -674,7 +739,7 @@ def run_chain(case: dict) -> Result:
     def extra(event):
         if event.event_type == "Propagate" and not isinstance(event, ProcessContinuation):
             m = event.context.get("metadata", {})
-            seq_of_val.setdefault(m.get("value"), m.get("seq"))
+            seq_of_val.setdefault(_tok(m.get("value")), m.get("seq"))
 
     mon.on_reply = on_reply
     mon.extra = extra
@@ -687,15 +752,15 @@ def run_chain(case: dict) -> Result:
     res.count("quiescence_checks")
     res.count("unacked_at_quiescence", len(mon.pending))
     for j, k in enumerate(keys):
-        ref = mon.cur[0][j]
+        ref = mon.curval[0][j]
         for i in range(1, n):
-            if mon.cur[i][j] != ref:
+            if mon.curval[i][j] != ref:
                 shape = _reorder_shape(mon, i, "Propagate", k) if _inverted(seqs_at(i, k)) else "in-order-delivery"
                 once.add(
                     "divergence-at-quiescence",
                     "ChainNode",
                     shape,
-                    f"heap empty, head holds {k}={ref!r}, node {names[i]} holds {mon.cur[i][j]!r}",
+                    f"heap empty, head holds {k}={mon.cur[0][j]!r}, node {names[i]} holds {mon.cur[i][j]!r}",
                     {"propagate_seq_arrival_order_at_node": seqs_at(i, k), "node_history": mon.hist[i][j]},
                 )
     return res
@@ -749,9 +814,19 @@ def gen_ml(rng: random.Random, tier: str) -> dict:
         "ae_interval": interval,
         "ae_first": [round(rng.uniform(0.01, interval), 3) for _ in range(n)],
         "ae_seed": rng.randrange(1 << 30),
-        "ops": gen_ops(rng, tier, n, keys, list(range(n)), list(range(n)), net["grid"], p_write=0.75),
+        "ops": _idle_start(rng, gen_ops(rng, tier, n, keys, list(range(n)), list(range(n)), net["grid"], p_write=0.75), interval),
         "net": net,
     }
+
+
+def _idle_start(rng: random.Random, ops: list[dict], interval: float) -> list[dict]:
+    """Half of the multi-leader cases start their workload after one or several anti-entropy intervals of idleness, so
+    that the first timer firings find every leader empty."""
+    t0 = rng.choice([0.0, 0.0, 1.3, 2.6, 4.2]) * interval
+    if t0:
+        for o in ops:
+            o["t"] = round(o["t"] + t0, 6)
+    return ops
 
 
 def gen_mlpart(rng: random.Random, tier: str) -> dict:
@@ -762,7 +837,8 @@ def gen_mlpart(rng: random.Random, tier: str) -> dict:
     keys = _keys(rng)
     net = gen_net(rng, names, ["Replicate", "Replicate", "AntiEntropyRequest", "AntiEntropyResponse"])
     interval = rng.choice([0.2, 0.5, 1.0])
-    ops = gen_ops(rng, tier, n, keys, list(range(n)), list(range(n)), net["grid"], p_write=0.8)
+    ops = _idle_start(rng, gen_ops(rng, tier, n, keys, list(range(n)), list(range(n)), net["grid"], p_write=0.8), interval)
+    t_first = min(o["t"] for o in ops)
     t_last = max(o["t"] for o in ops)
     order = names[:]
     rng.shuffle(order)
@@ -775,7 +851,7 @@ def gen_mlpart(rng: random.Random, tier: str) -> dict:
             "a": sorted(order[:k]),
             "b": sorted(order[k:]),
             "asymmetric": rng.random() < 0.2,
-            "from": round(rng.choice([0.0, rng.uniform(0.0, t_last), rng.uniform(0.0, t_last)]), 4),
+            "from": round(rng.choice([0.0, rng.uniform(t_first, t_last), rng.uniform(t_first, t_last)]), 4),
             "to": round(t_last + (rounds + rng.random()) * interval, 4),
         }
     ]
@@ -888,7 +964,7 @@ def run_ml(case: dict) -> Result:
 
     # versions are part of the replicated state (public property); a change of version with equal value also counts
     ver_sig = [None] * n
-    state = {"last_ver_change_ns": 0, "fixpoint": False, "t_fix": None, "t_star": 0, "equal_at_heal": None}
+    state = {"last_ver_change_ns": 0, "fixpoint": False, "t_fix": None, "t_star": 0, "equal_at_heal": None, "dead": []}
     all_pairs = {(a, b) for a in names for b in names if a != b}
     # "Anti-entropy has run" is measured by *timer firings*, not by messages: every AntiEntropy tick is logged together
     # with the peer the leader drew for it (a transparent recorder around random.choice, the library's way of picking
@@ -903,26 +979,41 @@ def run_ml(case: dict) -> Result:
         # version changes
         if id(event.target) in mon.node_of:
             i = mon.node_of[id(event.target)]
-            sig = tuple(sorted((k, v.value, v.timestamp, v.writer_id) for k, v in nodes[i].versions.items()))
+            sig = tuple(sorted((k, _tok(v.value), v.timestamp, v.writer_id) for k, v in nodes[i].versions.items()))
             if sig != ver_sig[i]:
                 ver_sig[i] = sig
                 state["last_ver_change_ns"] = mon.now_ns
         if cuts and state["equal_at_heal"] is None and mon.now_ns > t_heal_ns:
             # first delivery after the last window ended (the store sample of this delivery is already in)
-            state["equal_at_heal"] = all(mon.cur[i] == mon.cur[0] for i in range(1, n))
+            state["equal_at_heal"] = all(mon.curval[i] == mon.curval[0] for i in range(1, n))
         if event.event_type != "AntiEntropy" or isinstance(event, ProcessContinuation):
             return
         who = getattr(event.target, "name", None)
         chosen = choices[-1] if choices else None
         del choices[:]
         ticks.append((mon.now_ns, who, getattr(chosen, "name", None)))
-        if mon.pending or mon.now_ns <= t_base_ns:
-            return
+        last_tick[who] = mon.now_ns
+        if evaluate(mon.now_ns):
+            sim.control.pause()
+
+    # A leader's timer re-arms itself one interval after each firing.  A leader that has not fired for two intervals
+    # (and whose last round has had time to finish) has no timer any more: its anti-entropy "has run" as much as it
+    # ever will, so its pairs count as settled - and if the replicas then differ, the stopped timer is the mechanism.
+    last_tick = {names[i]: int(case["ae_first"][i] * 1e9) - 1 for i in range(n)}
+    interval_ns = int(interval * 1e9)
+
+    def evaluate(now_ns: int, heap_empty: bool = False) -> bool:
+        if mon.pending or now_ns <= t_base_ns:
+            return False
         t_star = max(mon.last_change_ns, state["last_ver_change_ns"], t_base_ns)
-        covered = set()
+        if heap_empty:
+            dead = set(names)
+        else:
+            dead = {a for a in names if now_ns > last_tick[a] + 2 * interval_ns and now_ns >= last_tick[a] + settle * 1e9}
+        covered = {(a, b) for a in dead for b in names if b != a}
         blind: dict = {}
         for s_ns, a, b in ticks:
-            if s_ns > t_star and s_ns + settle * 1e9 <= mon.now_ns:
+            if s_ns > t_star and s_ns + settle * 1e9 <= now_ns:
                 if b is None:
                     blind[a] = blind.get(a, 0) + 1
                 else:
@@ -932,9 +1023,11 @@ def run_ml(case: dict) -> Result:
                 covered |= {(a, b) for b in names if b != a}
         if covered >= all_pairs:
             state["fixpoint"] = True
-            state["t_fix"] = mon.now_ns
+            state["t_fix"] = now_ns
             state["t_star"] = t_star
-            sim.control.pause()
+            state["dead"] = sorted(dead)
+            return True
+        return False
 
     mon.on_reply = on_reply
     mon.extra = extra
@@ -953,6 +1046,12 @@ def run_ml(case: dict) -> Result:
     finally:
         random.choice = orig_choice
     res.count("ae_timer_firings", len(ticks))
+    horizon_ns = int(horizon * 1e9)
+    if status == "completed" and not state["fixpoint"] and mon.now_ns + interval_ns < horizon_ns:
+        # The run ended before the horizon although no fixpoint was declared: with end_time set the loop only stops
+        # early when the heap is empty, i.e. not a single timer is armed any more and nothing is in flight.
+        res.count("ml_runs_ended_with_empty_heap")
+        evaluate(max(mon.now_ns, t_base_ns + 1), heap_empty=True)
 
     def order_of(m):
         w = m.get("writer_id")
@@ -984,7 +1083,7 @@ def run_ml(case: dict) -> Result:
     res.count("ae_requests_delivered", sum(1 for a in mon.arrivals if a[3] == "AntiEntropyRequest"))
     if status != "completed":
         return res
-    equal = all(mon.cur[i] == mon.cur[0] for i in range(1, n))
+    equal = all(mon.curval[i] == mon.curval[0] for i in range(1, n))
     if not state["fixpoint"]:
         res.count("ml_no_fixpoint_within_budget")
         res.inconclusive = (
@@ -994,28 +1093,33 @@ def run_ml(case: dict) -> Result:
         return res
     res.count("quiescence_checks")
     res.count("mlpart_fixpoints_reached" if cuts else "ml_fixpoints_reached")
+    if state["dead"]:
+        res.count("ml_fixpoints_with_stopped_timers")
     if any(len(h) > 2 for i in range(n) for h in mon.hist[i]):
         res.count("ml_fixpoints_after_overwrites")
     requests_after = sum(1 for send_ns, _s, _d, et, _n, _dl in script.log if et == "AntiEntropyRequest" and send_ns > state["t_star"])
     if not equal:
         for j, k in enumerate(keys):
             vals = [mon.cur[i][j] for i in range(n)]
-            if len(set(vals)) > 1:
+            if len({mon.curval[i][j] for i in range(n)}) > 1:
                 vers = [nodes[i].versions.get(k) for i in range(n)]
                 shape = _ml_shape(vers)
-                if requests_after == 0:
+                if state["dead"]:
+                    shape = "anti-entropy-timer-stopped"
+                elif requests_after == 0:
                     shape = "anti-entropy-timer-fires-without-sending"
                 n_ticks = sum(1 for s_ns, _a, _b in ticks if s_ns > state["t_star"])
                 once.add(
                     "divergence-after-anti-entropy",
                     "LeaderNode",
                     shape,
-                    f"resolver={case['resolver']}: for every ordered pair the anti-entropy timer fired after the last state "
-                    f"change / heal / operation (t*={state['t_star']}ns, now={mon.now_ns}ns, {n_ticks} timer firings and "
+                    f"resolver={case['resolver']}: for every ordered pair the anti-entropy timer fired (or stopped for good: "
+                    f"{state['dead']}) after the last state change / heal / operation (t*={state['t_star']}ns, now={mon.now_ns}ns, {n_ticks} timer firings and "
                     f"{requests_after} AntiEntropyRequest(s) since t*) and key {k} is {vals}",
                     {
-                        "versions": [None if v is None else [v.value, v.timestamp, v.writer_id, v.vector_clock] for v in vers],
+                        "versions": [None if v is None else [_tok(v.value), v.timestamp, v.writer_id, v.vector_clock] for v in vers],
                         "cuts": cuts,
+                        "leaders_whose_timer_stopped": {a: last_tick[a] for a in state["dead"]},
                         "ticks_since_t_star": [t for t in ticks if t[0] > state["t_star"]][:24],
                     },
                 )
@@ -1108,7 +1212,7 @@ def run_rstore(case: dict) -> Result:
             return
         res.count("writes_acked")
         res.count("acks_checked")
-        key, val = o["key"], o["val"]
+        key, val = o["key"], op["tok"]
         j = mon.kidx[key]
         pos = mon.pos(0, key)
         if val not in pos:
@@ -1127,9 +1231,10 @@ def run_rstore(case: dict) -> Result:
     mon.on_reply = on_reply
     for i, o in enumerate(ops):
         fut = SimFuture()
-        meta = {"i": i, "op": o["op"], "key": o["key"], "val": o.get("val"), "done": fut}
+        tv = TV(o["val"], i) if o["op"] == "w" else None
+        meta = {"i": i, "op": o["op"], "key": o["key"], "val": tv, "done": fut}
         sim.schedule(Event(time=Instant.from_seconds(o["t"]), event_type="Op", target=client, context={"metadata": meta}))
-        mon.pending.append({"i": i, "o": o, "fut": fut})
+        mon.pending.append({"i": i, "o": o, "fut": fut, "tok": _tok(tv)})
     sim.control.on_event(mon.after_event)
     status = _run_sim(sim, res)
     if any(_overlap(ops, log, o) for o in ops if o["op"] == "w"):
@@ -1140,7 +1245,7 @@ def run_rstore(case: dict) -> Result:
     res.count("quiescence_checks")
     for j, k in enumerate(keys):
         vals = [mon.cur[i][j] for i in range(n)]
-        if len(set(vals)) > 1:
+        if len({mon.curval[i][j] for i in range(n)}) > 1:
             once.add(
                 "divergence-at-quiescence",
                 "ReplicatedStore",
